@@ -1,16 +1,42 @@
-// Stage G probe for C14: prints lean/XzVerif/Gen/C14.lean from the tables the build really uses.
+// Stage G probe for C14 (part 1): prints Lean definitions (no namespace header; tools/props/c14.py wraps them) from
+// the code the build really compiles: the CRC tables, SHA256_K and the initial state of lzma_sha256_init, the
+// check sizes / supported flags returned by check.c, vmasks[] and the CRC32 CLMUL constants of crc_x86_clmul.h.
+// Compiled with the -D/-I flags of the library build.
 #include <stdint.h>
 #include <stdio.h>
 #include <inttypes.h>
 #include <stddef.h>
-#define lzma_attr_visibility_hidden
-#include "crc32_table_le.h"
+#include <string.h>
+
+#if defined(__x86_64__) || defined(__i386__)
+#include <immintrin.h>
+// Record the arguments of every _mm_set_epi64x() the CRC code executes (fold512, fold128, mu_p are locals).
+static uint64_t rec[32];
+static int nrec;
+static inline __m128i rec_set(long long hi, long long lo)
+{
+	if (nrec + 2 <= 32) { rec[nrec++] = (uint64_t)hi; rec[nrec++] = (uint64_t)lo; }
+	return (_mm_set_epi64x)(hi, lo);
+}
+#define _mm_set_epi64x(hi, lo) rec_set((hi), (lo))
+#endif
+
+#include "crc32_fast.c"      // lzma_crc32, lzma_crc32_table (if generic), crc32_arch_optimized (if CLMUL)
+#ifndef CRC32_GENERIC
+#	include "crc32_table_le.h"
+#endif
 #include "crc64_table_le.h"
+#include "check.c"
+#ifdef HAVE_INTERNAL_SHA256
+#	include "sha256.c"
+#endif
+
+// check.c refers to lzma_crc64; it is never called here.
+extern LZMA_API(uint64_t) lzma_crc64(const uint8_t *buf, size_t size, uint64_t crc) { (void)buf; (void)size; return crc; }
 
 int main(void)
 {
-	printf("-- GENERATED by harness/gen_c14.c from /repo/src/liblzma/check/crc{32,64}_table_le.h; do not edit.\n");
-	printf("namespace XzVerif.Gen.C14\n\n");
+	printf("-- part 1: harness/gen_c14.c\n");
 	for (int s = 0; s < 8; ++s) {
 		printf("def crc32T%d : List Nat := [", s);
 		for (int i = 0; i < 256; ++i)
@@ -25,6 +51,64 @@ int main(void)
 		printf("]\n\n");
 	}
 	printf("def crc64Table : List (List Nat) := [crc64T0, crc64T1, crc64T2, crc64T3]\n\n");
-	printf("end XzVerif.Gen.C14\n");
+
+	// SHA-256
+	printf("/-- SHA256_K[64] of sha256.c -/\ndef sha256K : List Nat := [");
+#ifdef HAVE_INTERNAL_SHA256
+	for (int i = 0; i < 64; ++i)
+		printf("%s%s%" PRIu32, i ? "," : "", (i % 8) ? " " : "\n  ", SHA256_K[i]);
+#endif
+	printf("]\n\n");
+	printf("/-- check->state.sha256.state after lzma_sha256_init -/\ndef sha256Init : List Nat := [");
+#ifdef HAVE_INTERNAL_SHA256
+	{
+		lzma_check_state c;
+		memset(&c, 0xAA, sizeof(c));
+		lzma_sha256_init(&c);
+		for (int i = 0; i < 8; ++i)
+			printf("%s%" PRIu32, i ? ", " : "", c.state.sha256.state[i]);
+		printf("]\n\ndef sha256InitSize : Nat := %" PRIu64 "\n\n", c.state.sha256.size);
+	}
+#else
+	printf("]\n\ndef sha256InitSize : Nat := 0\n\n");
+#endif
+
+	// check.c
+	printf("/-- lzma_check_size(0..15), then the value for 16 -/\ndef checkSizes : List Nat := [");
+	for (int i = 0; i <= 16; ++i)
+		printf("%s%" PRIu32, i ? ", " : "", lzma_check_size((lzma_check)i));
+	printf("]\n\n");
+	printf("def checkSupported : List Bool := [");
+	for (int i = 0; i <= 16; ++i)
+		printf("%s%s", i ? ", " : "", lzma_check_is_supported((lzma_check)i) ? "true" : "false");
+	printf("]\n\n");
+	printf("def checkIdMax : Nat := %d\n\n", (int)LZMA_CHECK_ID_MAX);
+	printf("def checkSizeMax : Nat := %d\n\n", (int)LZMA_CHECK_SIZE_MAX);
+
+	// CLMUL (CRC32 flavour)
+	printf("/-- vmasks[64] of crc_x86_clmul.h -/\ndef clmulVmasks : List Nat := [");
+#ifdef CRC_X86_CLMUL
+	for (int i = 0; i < 64; ++i)
+		printf("%s%u", i ? ", " : "", (unsigned)vmasks[i]);
+#endif
+	printf("]\n\n");
+	printf("/-- arguments (hi, lo) of the _mm_set_epi64x calls in crc32_arch_optimized: fold512, fold128, mu_p -/\n"
+		"def clmul32 : List Nat := [");
+#if defined(CRC_X86_CLMUL) && defined(CRC32_ARCH_OPTIMIZED)
+	{
+		int ok = 1;
+#	ifdef CRC32_GENERIC
+		ok = is_arch_extension_supported();
+#	endif
+		if (ok) {
+			uint8_t one[1] = { 0 };
+			nrec = 0;
+			(void)crc32_arch_optimized(one, 1, 0);
+			for (int i = 0; i < nrec; ++i)
+				printf("%s%" PRIu64, i ? ", " : "", rec[i]);
+		}
+	}
+#endif
+	printf("]\n\n");
 	return 0;
 }
